@@ -107,7 +107,7 @@ def plan(tier):
             for fee in (0, 1):
                 if quick and integer and fee:
                     continue
-                cfg = dict(child=child, int=integer, fee=fee, symw=0 if integer else 1)
+                cfg = dict(child=child, int=integer, fee=fee, symw=0 if (integer or fee) else 1)
                 if integer:
                     cfg['capgrid'] = 123456.0
                 tasks.append(dict(harness='nested', cfg=cfg, opts=opts))
